@@ -510,7 +510,7 @@ JUDGE_LOCK = threading.Lock()
 
 def setup(chk, want_emu=False):
     ctx = Ctx()
-    broken = common.translate(["codec"])
+    broken = common.translate(["codec", "tables", "loader", "loader_step"] if chk.prop == "C02" else ["codec"])
     ctx.broken = broken
     if broken:
         chk.proof_broken = {"kind": "translator", "messages": broken}
